@@ -6,16 +6,21 @@
    pair  op=cmp e=int|dbl a=[x,y] b=[u,v]                       -> six bits  == != < <= > >=   (dbl: 9 is NaN)
    pair  op=<O> t=[k1,k2] a=[x,y] b=[u,v]                       -> r=[..] a=[..] b=[..] cp=N | n/a
    tuple op=<O> t=[k,..] a=[..] b=[..]                          -> same;  op=eq -> bit
-         O: ctor ctorr copy move assign massign swap fswap selfswap make maker get getc getr getcr sb mft mftr fwd tie
+         O: dflt ctor ctorr copy move assign massign swap fswap selfswap make maker get getc getr getcr sb mft mftr fwd tie
             conv convr cassign cmassign (pair of int only)
-   tuple op=apply q=Q a=[..]                                    -> r=N log=L
+   tuple op=apply q=Q c=C a=[..]   (q: tuple category, c: callee category, default 0)   -> r=N log=L
    tcat  t=K q=0|2 ts=[n1,..] v=[flattened values]              -> r=[..] a=[..] cp=N
    invoke f=fn|fptr|lam|fob|memfn|memdata c=Q o=obj|refw|ptr|der|dptr x=[..] xc=[..] v=N   -> r=N log=L
    fref   f=fn|fptr|lam|fob c=0|1 act=call|copy x=[..] xc=[..]   -> r=N log=L cp=N
    ifn2   x=[a,b,c] xc=[q]                                       -> r=N log=L cp=N
+   ifn2   f=memfn x=[a] | f=memdata x=[] v=N   (inplace_function around a pointer to member)   -> r=N log=L cp=0
    rw     cst=0|1 act=call|copy|rebind x=[..] xc=[..]            -> r=N log=L
-   bf     f=fob|fn q=Q bl=0|1 b=[..] x=[..] xc=[..]               -> r=N log=L bcp=N
-   nf     q=Q p=0|1 x=[..] xc=[..]                                -> r=B log=L
+   bf     f=fob|fn q=Q bl=0|1 b=[..] [br=[0|1,..]] [act=call|copy|move] x=[..] xc=[..]   -> r=N log=L bcp=N
+          br[i]=1: bound argument i is handed over as ref(object); act: the wrapper called is the original,
+          a copy of it, or one move-constructed from it
+   nf     q=Q p=0|1 [act=call|copy|move] x=[..] xc=[..]          -> r=B log=L
+   log entry: tid/self/args; per argument a letter and the value: v by-value parameter, l c r k category seen by a
+          forwarding parameter, L C R K the same for an argument that arrives as a reference_wrapper
    new                                                           -> four empty inplace_function objects (3 = small capacity)
    ifn op=ctor_empty|ctor_null|ctor_fn|ctor_copy|ctor_move|assign|massign|assign_fn|assign_null|swap|fswap|call|bool|eqnull
        i=I [j=J] [ty=T id=N] [x=X]                               -> <res> e=[..] live=N log=L                      -/
@@ -34,9 +39,14 @@ def catOf : Nat → Option Cat
 def Cat.letter : Cat → String
   | .l => "l" | .c => "c" | .r => "r" | .k => "k"
 
+def Via.letter : Via → String
+  | .val => "v"
+  | .fwd q => Cat.letter q
+  | .wrap q => (Cat.letter q).toUpper
+
 def fmtCall (c : Call) : String :=
   let self := match c.self with | some q => Cat.letter q | none => "-"
-  let args := c.args.map fun (q, v) => (match q with | some q => Cat.letter q | none => "v") ++ toString v
+  let args := c.args.map fun (q, v) => Via.letter q ++ toString v
   s!"{c.tid}/{self}/{",".intercalate args}"
 
 def fmtLog (l : Log) : String := if l.isEmpty then "-" else ";".intercalate (l.map fmtCall)
@@ -73,6 +83,7 @@ def applicable (op : String) (ks : List EK) : Bool :=
   | "maker" => ks.all (fun k => valueKind k || k == .mo)
   | "fwd" | "tie" => ks.all (fun k => valueKind k || k == .mo)
   | "conv" | "convr" | "cassign" | "cmassign" => ks.all (· == .int)
+  | "dflt" => ks.all (fun k => k == .int || k == .cst)
   | _ => true
 
 /-- (model, spec) of a value operation -/
@@ -84,6 +95,7 @@ def valueOp (op : String) (ks : List EK) (a b : List Int) : Option (Except Err R
   let moveR : Except Err Res × Res :=
     (let m := moveAll e1; .ok ⟨some m.1, m.2.1, b, m.2.2⟩, let s := Spec.move e1; ⟨some s.1, s.2.1, b, s.2.2⟩)
   match op with
+  | "dflt" => some (.ok ⟨some (defaultAll ks), a, b, 0⟩, ⟨some (Spec.dflt ks), a, b, 0⟩)
   | "ctor" | "copy" | "make" | "getcr" | "mft" | "conv" => some copyR
   | "ctorr" | "move" | "maker" | "getr" | "mftr" | "convr" => some moveR
   | "assign" | "cassign" =>
@@ -109,15 +121,15 @@ def cats? (l : Line) (k : String) : Option (List Cat) := (l.natList? k).bind fun
 def kinds? (l : Line) (k : String) : Option (List EK) := (l.natList? k).bind fun v => v.mapM ekOf
 
 /-- forwarding arguments: value with category -/
-def fwdArgs (x : List Int) (xc : List Cat) : Option (List (Option Cat × Int)) :=
-  if x.length = xc.length then some ((xc.zip x).map fun (c, v) => (some c, v)) else none
+def fwdArgs (x : List Int) (xc : List Cat) : Option (List Arg) :=
+  if x.length = xc.length then some ((xc.zip x).map fun (q, v) => (.fwd q, v)) else none
 
-def valArgs (x : List Int) : List (Option Cat × Int) := x.map fun v => (none, v)
+def valArgs (x : List Int) : List Arg := x.map fun v => (.val, v)
 
 def fmtRL (p : Int × Log) : String := s!"r={p.1} log={fmtLog p.2}"
 
 /-- a plain function taking ints by value cannot observe the category of its arguments -/
-def strip (p : Int × Log) : Int × Log := (p.1, p.2.map fun c => { c with args := c.args.map fun a => (none, a.2) })
+def strip (p : Int × Log) : Int × Log := (p.1, p.2.map fun c => { c with args := c.args.map fun a => (Via.val, a.2) })
 
 /-- split a flat value list into tuples of the given arities -/
 def splitBy : List Nat → List Int → List (List Int)
@@ -159,6 +171,8 @@ def typeFact : String → Option (Bool × Bool)
   | "tuple_get_by_type" => some (false, true)
   | "tuple_structured_binding" => some (false, true)
   | "pair_ref_copy_assignable" => some (true, true)
+  | "pair_get_by_type" => some (false, true)
+  | "tuple_converting_ctor" => some (false, true)
   | _ => none
 
 def fmtM (st : St) : String :=
@@ -213,12 +227,13 @@ def step (st : DState) (l : Line) : DState × String :=
             (bits (Spec.pairRels Spec.dEq Spec.dEq Spec.dCmp Spec.dCmp (x, y) (u, v)))
       | _ => bad
     | some "eq", some a, some b =>
+      -- (tuples of different arity do not compare: `requires(sizeof...(Ts) == sizeof...(Us))`; no such line exists)
       if l.op != "tuple" || a.length != b.length then bad
-      else out (fmtBool (C20.tupleEq iEq a b)) (fmtBool (Spec.tupleEq a b))
+      else out (fmtE fmtBool (C20.tupleEq iEq a b)) (fmtBool (Spec.tupleEq a b))
     | some "apply", some a, _ =>
-      match (l.nat? "q").bind catOf with
-      | some q => out (fmtE fmtRL (C20.apply (.fob 7 .l) q a)) (fmtRL (Spec.apply (.fob 7 .l) q a))
-      | none => bad
+      match (l.nat? "q").bind catOf, catOf ((l.nat? "c").getD 0) with
+      | some q, some c => out (fmtE fmtRL (C20.apply (.fob 7 c) q a)) (fmtRL (Spec.apply (.fob 7 c) q a))
+      | _, _ => bad
     | some op, some a, some b =>
       match kinds? l "t" with
       | some ks =>
@@ -247,7 +262,7 @@ def step (st : DState) (l : Line) : DState × String :=
   | "invoke" =>
     match l.str? "f", (l.nat? "c").bind catOf, l.list? "x" with
     | some f, some c, some x =>
-      let callee : Option (Callee × List (Option Cat × Int)) :=
+      let callee : Option (Callee × List Arg) :=
         match f with
         | "fn" => some (.fn 1, valArgs x)
         | "fptr" => some (.fn 2, valArgs x)
@@ -261,6 +276,17 @@ def step (st : DState) (l : Line) : DState × String :=
       | none => bad
     | _, _, _ => bad
   | "fref" | "ifn2" =>
+    if l.op == "ifn2" && (l.str? "f").isSome then
+      -- an owning wrapper around a pointer to member (the object is the first parameter of the signature, an lvalue)
+      match l.str? "f", l.list? "x", l.int? "v" with
+      | some "memfn", some x, _ =>
+        let f (p : Int × Log) : String := fmtRL (strip p) ++ " cp=0"
+        out (fmtE f (functionRefCall (.memfn 5 (.obj .l)) (valArgs x))) (f (Spec.functionRefCall (.memfn 5 (.obj .l)) (valArgs x)))
+      | some "memdata", some x, some v =>
+        let f (p : Int × Log) : String := fmtRL p ++ " cp=0"
+        out (fmtE f (functionRefCall (.memdata (.obj .l) v) (valArgs x))) (f (Spec.functionRefCall (.memdata (.obj .l) v) (valArgs x)))
+      | _, _, _ => bad
+    else
     match l.list? "x", cats? l "xc" with
     | some x, some xc =>
       let f := if l.op == "ifn2" then "fob" else (l.str? "f").getD "?"
@@ -268,8 +294,9 @@ def step (st : DState) (l : Line) : DState × String :=
       match f, c, x, xc with
       | "fob", some c, [a, b, d], [qa] =>
         -- signature int(Trk, Trk&, Trk const&): the first argument is passed by value
-        let args : List (Option Cat × Int) := [(none, a), (some .l, b), (some .c, d)]
-        let cp := if qa == .l || qa == .c then 1 else 0
+        let args : List Arg := [(.val, a), (.fwd .l, b), (.fwd .c, d)]
+        -- the by-value parameter is copy-constructed from an lvalue or a const rvalue, move-constructed from an rvalue
+        let cp := if qa == .r then 0 else 1
         let tid := if l.op == "ifn2" then 8 else 4
         out (fmtE fmtRL (functionRefCall (.fob tid c) args) ++ s!" cp={cp}") (fmtRL (Spec.functionRefCall (.fob tid c) args) ++ s!" cp={cp}")
       | "fn", some _, _, _ => out (fmtE (fun p => fmtRL (strip p)) (functionRefCall (.fn 1) (valArgs x)) ++ " cp=0") (fmtRL (strip (Spec.functionRefCall (.fn 1) (valArgs x))) ++ " cp=0")
@@ -289,18 +316,25 @@ def step (st : DState) (l : Line) : DState × String :=
   | "bf" =>
     match l.str? "f", (l.nat? "q").bind catOf, l.nat? "bl", l.list? "b", l.list? "x" with
     | some f, some q, some bl, some b, some x =>
-      let bcp := if bl == 1 && f == "fob" then b.length else 0
+      let br := (l.natList? "br").getD (b.map fun _ => 0)
+      let act := (l.str? "act").getD "call"
+      if br.length != b.length || !(act == "call" || act == "copy" || act == "move") then bad else
+      let bound : List Bound := (b.zip br).map fun (v, r) => if r == 1 then .refw v else .val v
+      -- copies of bound instrumented objects made before the call: one per plain argument bound from an lvalue,
+      -- one more per plain argument when the wrapper is copied; a bound reference_wrapper copies nothing
+      let plain := (br.filter (· != 1)).length
+      let bcp := if f == "fob" then (if bl == 1 then plain else 0) + (if act == "copy" then plain else 0) else 0
       match f with
       | "fob" =>
         match (cats? l "xc").bind (fwdArgs x) with
         | some args =>
-          out (fmtE fmtRL (bindFrontCall (fun q => .fob 6 q) q b args) ++ s!" bcp={bcp}")
-              (fmtRL (Spec.bindFrontCall (fun q => .fob 6 q) q b args) ++ s!" bcp={bcp}")
+          out (fmtE fmtRL (bindFrontCall (fun q => .fob 6 q) q bound args) ++ s!" bcp={bcp}")
+              (fmtRL (Spec.bindFrontCall (fun q => .fob 6 q) q bound args) ++ s!" bcp={bcp}")
         | none => bad
       | "fn" =>
         -- a function pointer taking ints by value: the categories of the bound arguments are not observable
-        out (fmtE (fun p => fmtRL (strip p)) (bindFrontCall (fun _ => .fn 2) q b (valArgs x)) ++ s!" bcp={bcp}")
-            (fmtRL (strip (Spec.bindFrontCall (fun _ => .fn 2) q b (valArgs x))) ++ s!" bcp={bcp}")
+        out (fmtE (fun p => fmtRL (strip p)) (bindFrontCall (fun _ => .fn 2) q bound (valArgs x)) ++ s!" bcp={bcp}")
+            (fmtRL (strip (Spec.bindFrontCall (fun _ => .fn 2) q bound (valArgs x))) ++ s!" bcp={bcp}")
       | _ => bad
     | _, _, _, _, _ => bad
   | "nf" =>
